@@ -52,7 +52,8 @@ META = {
     'rule': 'case = task table (1-9 tasks, groups with sub-tasks, task_dep/setup edges from a random topological order, '
             'sometimes a cycle) + argv + default_tasks + target tree + backend; non-trivial = accepted, at least two tasks '
             'visibly cleaned and at least one dependency edge between two cleaned tasks; distinct = distinct canonical case',
-    'assumptions': ['each generated task has at most one clean action (python callable) or `clean: True`',
+    'assumptions': ['a generated `clean` is `True` or a list of 1-3 actions (python callable with / without a `dryrun` '
+                    'parameter, shell command); a dryrun-aware callable told dryrun=True does not touch the tree',
                     'targets are normalised relative paths without trailing slash; two tasks never share a target '
                     '(TaskControl rejects that)',
                     'patterns use only `*`, `?` and literal characters',
@@ -126,8 +127,20 @@ def gen_targets(rng, tasks):
     files, dirs = set(), set()
     shared_taken = False
     for i, t in enumerate(tasks):
-        t['kind'] = rng.choices(cleanlib.KINDS, weights=[10, 32, 33, 25])[0]
+        t['kind'] = rng.choices(cleanlib.KINDS, weights=[8, 30, 62])[0]
         t['targets'] = []
+        if t['kind'] == 'actions':
+            n_act = rng.choices([1, 2, 3], weights=[40, 35, 25])[0]
+            acts = []
+            for k in range(n_act):
+                eff = None
+                r = rng.random()
+                if r < 0.35:
+                    eff = ['rm', rng.choice(['junk%d' % i, 'o%d/f' % i, 'top%d' % i, 'o%d/extra' % i, 'shared/p%d' % i])]
+                elif r < 0.5:
+                    eff = ['mk', 'new%d_%d' % (i, k)]
+                acts.append({'type': rng.choice(['aware', 'plain', 'cmd']), 'eff': eff})
+            t['actions'] = acts
         if rng.random() < (0.92 if t['kind'] == 'targets' else 0.15):
             pool = ['o%d' % i, 'o%d/f' % i, 'o%d/g.txt' % i, 'o%d/sub' % i, 'o%d/sub/h' % i, 'top%d' % i,
                     'o%d-x' % i, 'o%d.d/k' % i, 'shared/p%d' % i, 'shared/q%d/r' % i]
@@ -144,6 +157,9 @@ def gen_targets(rng, tasks):
         if t['targets'] and rng.random() < 0.3:
             d = rng.choice(t['targets'])
             state[d + '/extra'] = 'file'       # something that is not a target inside a target
+        for a in t.get('actions', []):
+            if a['eff'] and a['eff'][0] == 'rm' and a['eff'][1] not in state and rng.random() < 0.8:
+                state[a['eff'][1]] = 'file'    # what the action removes usually exists
     if rng.random() < 0.2:
         state['shared/other'] = 'file'
     for p, s in sorted(state.items()):
@@ -243,6 +259,7 @@ def exhaustive_cases(n_max, sample=None, rng=None):
 
 def evaluate(cases):
     """[(case, obs, ans, diffs, failed)]"""
+    cases = [cleanlib.norm_case(c) for c in cases]
     obs = [cleanlib.run_impl(c) for c in cases]
     ans = common.drv_batch([cleanlib.to_req(c, o) for c, o in zip(cases, obs)])
     return [(c, o, a, cleanlib.compare(c, o, a), cleanlib.monitor(c, o, a)) for c, o, a in zip(cases, obs, ans)]
@@ -250,7 +267,7 @@ def evaluate(cases):
 
 def fails(case):
     try:
-        return bool(evaluate([case])[0][4])
+        return bool(evaluate([case])[0][4])  # evaluate normalises old-style kinds
     except Exception:  # noqa
         return False
 
@@ -306,6 +323,17 @@ def shrink_candidates(case):
             c = json.loads(json.dumps(case))
             del c['tasks'][i]['targets'][j]
             yield c
+        acts = t.get('actions', []) if t['kind'] == 'actions' else []
+        if len(acts) > 1:
+            for j in range(len(acts)):
+                c = json.loads(json.dumps(case))
+                del c['tasks'][i]['actions'][j]
+                yield c
+        for j, a in enumerate(acts):
+            if a.get('eff'):
+                c = json.loads(json.dumps(case))
+                c['tasks'][i]['actions'][j]['eff'] = None
+                yield c
     for j in range(len(case['pos'])):
         c = dict(case)
         c['pos'] = case['pos'][:j] + case['pos'][j + 1:]
@@ -363,7 +391,11 @@ def describe(case):
             s += ' task_dep=' + ','.join(case['tasks'][d]['label'] for d in t['task_dep'])
         if t['setup']:
             s += ' setup=' + ','.join(case['tasks'][d]['label'] for d in t['setup'])
-        s += ' clean=' + t['kind']
+        if t['kind'] == 'actions':
+            s += ' clean=[' + ', '.join(a['type'] + (':%s %s' % tuple(a['eff']) if a.get('eff') else '')
+                                        for a in t.get('actions', [])) + ']'
+        else:
+            s += ' clean=' + {'act': '[plain]', 'actdry': '[aware]'}.get(t['kind'], t['kind'])
         if t['targets']:
             s += ' targets=' + ','.join(t['targets'])
         ts.append(s)
@@ -405,6 +437,15 @@ def process_batch(batch):
             st.count('has-group')
         if any(t['setup'] for t in tasks):
             st.count('has-setup-edge')
+        for t in tasks:
+            acts = t.get('actions', []) if t['kind'] == 'actions' else []
+            if acts:
+                st.count('clean-list-len:%d' % len(acts))
+                types = [a['type'] for a in acts]
+                if 'aware' in types and any(x != 'aware' for x in types[types.index('aware') + 1:]):
+                    st.count('clean-list:aware-before-non-aware')
+                if any(a.get('eff') for a in acts):
+                    st.count('clean-list:with-file-effect')
         if obs.get('outcome') == 'ok':
             st.count('cleaned:%s' % (len(obs['order']) if len(obs['order']) < 6 else '6+'))
             st.count('db-before:%s' % ('empty' if not obs['db0'] else 'some'))
